@@ -860,6 +860,35 @@ TxUndelegate(cfg, s, ev) ==
                   w4 == IF ValOf(s, v).status = 3 THEN Send(w3, "m_bonded_tokens_pool", "m_not_bonded_tokens_pool", amt) ELSE w3
               IN Tx(s, w4)
 
+RedelN(w, d, src, dst) == LET r == SelectSeq(w.redel, LAMBDA x : x.d = d /\ x.src = src /\ x.dst = dst) IN IF r = <<>> THEN 0 ELSE r[1].n
+\* MsgBeginRedelegate: Unbond(src) with its hooks, then Delegate(dst) without a bank transfer, with its hooks
+TxRedelegate(cfg, s, ev) ==
+    LET w0 == Work(s)  d == ev.creator  src == ev.val  dst == ev.val2  amt == ev.amount IN
+    IF ~Has(s.vals, "v", src) \/ amt <= 0 \/ DelegShares(s, d, src) < 0 THEN Tx(s, Fail(w0, "no delegation"))
+    ELSE LET old == DelegShares(s, d, src) IN
+    IF amt > old THEN Tx(s, Fail(w0, "invalid shares amount"))
+    ELSE IF src = dst THEN Tx(s, Fail(w0, "self redelegation"))
+    ELSE IF ~Has(s.vals, "v", dst) THEN Tx(s, Fail(w0, "bad redelegation dst"))
+    ELSE IF \E i \in 1..Len(s.redel) : s.redel[i].d = d /\ s.redel[i].dst = src THEN Tx(s, Fail(w0, "transitive redelegation"))
+    ELSE IF RedelN(s, d, src, dst) >= 7 THEN Tx(s, Fail(w0, "too many redelegation entries"))
+    ELSE
+    LET w1 == [w0 EXCEPT !.vol = VolOf(old, d, src)]
+        left == old - amt
+        w2 == IF left = 0 THEN SetDeleg(cfg, VerifySuper(cfg, w1, src, d, TRUE, old), d, src, -1)
+              ELSE VerifySuper(cfg, SetDeleg(cfg, w1, d, src, left), src, d, FALSE, old)
+        w3 == [w2 EXCEPT !.vals = Put(@, "v", [ValOf(s, src) EXCEPT !.shares = @ - amt, !.tokens = @ - amt])]
+        \* Delegate to dst (tokens stay in the bonded pool when both validators are bonded)
+        oldDst == DelegShares(w3, d, dst)
+        w4 == IF oldDst >= 0 THEN [w3 EXCEPT !.vol = VolOf(oldDst, d, dst)] ELSE w3
+        w5 == IF ValOf(s, src).status = 3 /\ ValOf(s, dst).status # 3 THEN Send(w4, "m_bonded_tokens_pool", "m_not_bonded_tokens_pool", amt)
+              ELSE IF ValOf(s, src).status # 3 /\ ValOf(s, dst).status = 3 THEN Send(w4, "m_not_bonded_tokens_pool", "m_bonded_tokens_pool", amt)
+              ELSE w4
+        w6 == [w5 EXCEPT !.vals = Put(@, "v", [ValOf(w5, dst) EXCEPT !.shares = @ + amt, !.tokens = @ + amt])]
+        w7 == VerifySuper(cfg, SetDeleg(cfg, w6, d, dst, Max2(oldDst, 0) + amt), dst, d, FALSE, IF oldDst >= 0 THEN oldDst ELSE -1)
+        w8 == [w7 EXCEPT !.redel = SelectSeq(@, LAMBDA x : ~(x.d = d /\ x.src = src /\ x.dst = dst))
+                                   \o <<[d |-> d, src |-> src, dst |-> dst, n |-> RedelN(s, d, src, dst) + 1]>>]
+    IN Tx(s, w8)
+
 \* ------------------------------------------------------------------ blocks
 \* sao/keeper HandleTimeoutOrder
 HandleTimeoutOrder(cfg, w, id) ==
@@ -1007,6 +1036,7 @@ Apply(cfg, s, ev) ==
       [] ev.kind = "RecoverFaults"  -> TxRecoverFaults(cfg, s, ev)
       [] ev.kind = "Delegate"       -> TxDelegate(cfg, s, ev)
       [] ev.kind = "Undelegate"     -> TxUndelegate(cfg, s, ev)
+      [] ev.kind = "Redelegate"     -> TxRedelegate(cfg, s, ev)
       [] ev.kind = "Binding"        -> TxBinding(cfg, s, ev)
       [] ev.kind = "DidUpdate"      -> TxDidUpdate(cfg, s, ev)
       [] ev.kind = "PayAddrSid"     -> TxPayAddrSid(cfg, s, ev)
